@@ -698,8 +698,11 @@ Proof. vm_compute. reflexivity. Qed.
 
 (* facts about escape chains (independent of the tree): backslash + double quote alone is NOT enough under the ISO
    modes, because of the trigraph ??/ (finding F-OPTGUARD-TRIGRAPH, witness a??/u); adding ? -> \? is *)
-Definition chain_bq : list (N * str) := [(92, [92; 92]); (34, [92; 34])].
-Definition chain_bqq : list (N * str) := chain_bq ++ [(63, [92; 63])].
+(* the path pieces go through the three-step chain, which stays valid after trigraph replacement *)
+Lemma all_paths_trigraph_safe :
+  forallb (fun sd => path_trigraph_ok sd && path_chain_expected sd) [c_support_side; c_type_side; cpp_support_side; cpp_type_side] = true.
+Proof. vm_compute. reflexivity. Qed.
+
 Lemma chain_facts :
   escape_quote_safe chain_bq = true /\ escape_trigraph_safe chain_bq = false /\
   lit_ok (detrigraph (apply_escape chain_bq [97; 63; 63; 47; 117])) = false /\
